@@ -19,10 +19,13 @@ package main
 
 import (
 	"bytes"
+	"flag"
 	"fmt"
 	"io"
 	"os"
 	"path/filepath"
+	"runtime/debug"
+	"runtime/pprof"
 	"strconv"
 	"strings"
 	"sync"
@@ -53,9 +56,12 @@ type ecCase struct {
 	D      []byte
 	shards [][]byte // as produced by the real encoder
 	ok     bool
+	open   []*ec.EcVolumeShard
 }
 
 func (c *ecCase) close() {
+	closeShards(c.open)
+	c.open = nil
 	if c.dir != "" {
 		os.RemoveAll(c.dir)
 	}
@@ -99,20 +105,25 @@ func fmtInterval(iv ec.Interval, L, S int64) string {
 
 // the EC read path: LocateEcShardNeedle's LocateData call (dat size derived from the first shard's
 // size) followed by readEcShardIntervals/readOneEcShardInterval over local shards.
-func readPath(dir string, L, S int64, off int64, size int64) (data []byte, ivs []string, err error) {
-	var shards []*ec.EcVolumeShard
-	defer func() {
-		for _, s := range shards {
-			s.Close()
-		}
-	}()
+func openShards(dir string) (shards []*ec.EcVolumeShard, err error) {
 	for i := 0; i < ec.TotalShardsCount; i++ {
 		s, e := ec.NewEcVolumeShard(types.HardDriveType, dir, "", needle.VolumeId(1), ec.ShardId(i))
 		if e != nil {
-			return nil, nil, e
+			closeShards(shards)
+			return nil, e
 		}
 		shards = append(shards, s)
 	}
+	return shards, nil
+}
+
+func closeShards(shards []*ec.EcVolumeShard) {
+	for _, s := range shards {
+		s.Close()
+	}
+}
+
+func readPath(shards []*ec.EcVolumeShard, L, S int64, off int64, size int64) (data []byte, ivs []string, err error) {
 	datSize := ec.DataShardsCount * shards[0].Size() // ec_volume.go: DataShardsCount*shard.ecdFileSize (T1 fact locCallDatSize)
 	intervals := ec.LocateData(L, S, datSize, off, types.Size(size))
 	for _, iv := range intervals {
@@ -138,7 +149,14 @@ func readPath(dir string, L, S int64, off int64, size int64) (data []byte, ivs [
 
 func (c *ecCase) rd(off, size int64) []string {
 	return hx.Guard(func() []string {
-		data, ivs, err := readPath(c.dir, c.L, c.S, off, size)
+		if c.open == nil {
+			sh, err := openShards(c.dir)
+			if err != nil {
+				return []string{"err", "-"}
+			}
+			c.open = sh
+		}
+		data, ivs, err := readPath(c.open, c.L, c.S, off, size)
 		if err != nil {
 			return append([]string{"err", "-"}, ivs...)
 		}
@@ -147,6 +165,8 @@ func (c *ecCase) rd(off, size int64) []string {
 }
 
 func (c *ecCase) rebuild(mask uint32) []string {
+	closeShards(c.open)
+	c.open = nil
 	outs := hx.Guard(func() []string {
 		for i := 0; i < ec.TotalShardsCount; i++ {
 			if mask&(1<<uint(i)) != 0 {
@@ -219,7 +239,6 @@ func decSeg(n int64) []string {
 		if shardLen >= 1<<24 {
 			return []string{"toobig"}
 		}
-		src := make([][2]int64, n) // (shard, offset) per output byte
 		buf := make([]byte, shardLen)
 		for d := 0; d < 4; d++ {
 			for s := 0; s < ec.DataShardsCount; s++ {
@@ -242,35 +261,58 @@ func decSeg(n int64) []string {
 			if err := ec.WriteDatFile(base, n); err != nil {
 				return []string{"err"}
 			}
-			out, err := os.ReadFile(base + ".dat")
+			fi, err := os.Stat(base + ".dat")
 			if err != nil {
 				return []string{"err"}
 			}
-			if int64(len(out)) != n {
-				return []string{"len", hx.I(int64(len(out)))}
+			if fi.Size() != n {
+				return []string{"len", hx.I(fi.Size())}
 			}
-			for j := int64(0); j < n; j++ {
-				switch d {
-				case 0:
-					src[j][1] |= int64(out[j])
-				case 1:
-					src[j][1] |= int64(out[j]) << 8
-				case 2:
-					src[j][1] |= int64(out[j]) << 16
-				case 3:
-					src[j][0] = int64(out[j]) - 1
-				}
+			os.Rename(base+".dat", base+".d"+strconv.Itoa(d))
+		}
+		var fs [4]*os.File
+		for d := range fs {
+			f, err := os.Open(base + ".d" + strconv.Itoa(d))
+			if err != nil {
+				return []string{"err"}
 			}
+			defer f.Close()
+			fs[d] = f
 		}
 		o := []string{"ok"}
-		for j := int64(0); j < n; {
-			e := j + 1
-			for e < n && src[e][0] == src[j][0] && src[e][1] == src[j][1]+(e-j) {
-				e++
-			}
-			o = append(o, fmt.Sprintf("%d:%d:%d", src[j][0], src[j][1], e-j))
-			j = e
+		var ch [4][]byte
+		for d := range ch {
+			ch[d] = make([]byte, 1<<20)
 		}
+		curS, curO, curLen := int64(-1), int64(0), int64(0)
+		flush := func() {
+			if curLen > 0 {
+				o = append(o, fmt.Sprintf("%d:%d:%d", curS, curO, curLen))
+			}
+		}
+		for pos := int64(0); pos < n; {
+			m := int64(1 << 20)
+			if n-pos < m {
+				m = n - pos
+			}
+			for d := range fs {
+				if _, err := io.ReadFull(fs[d], ch[d][:m]); err != nil {
+					return []string{"err"}
+				}
+			}
+			for j := int64(0); j < m; j++ {
+				sh := int64(ch[3][j]) - 1
+				of := int64(ch[0][j]) | int64(ch[1][j])<<8 | int64(ch[2][j])<<16
+				if curLen > 0 && sh == curS && of == curO+curLen {
+					curLen++
+				} else {
+					flush()
+					curS, curO, curLen = sh, of, 1
+				}
+			}
+			pos += m
+		}
+		flush()
 		return o
 	})
 }
@@ -385,7 +427,12 @@ func newBig(n int64) (*bigCase, []string) {
 func (b *bigCase) rd(off, size int64) []string {
 	return hx.Guard(func() []string {
 		L, S := int64(ec.ErasureCodingLargeBlockSize), int64(ec.ErasureCodingSmallBlockSize)
-		data, ivs, err := readPath(b.dir, L, S, off, size)
+		sh, err := openShards(b.dir)
+		if err != nil {
+			return []string{"err", "0"}
+		}
+		defer closeShards(sh)
+		data, ivs, err := readPath(sh, L, S, off, size)
 		if err != nil {
 			return append([]string{"err", "0"}, ivs...)
 		}
@@ -446,13 +493,18 @@ type cfg struct {
 
 var cfgs = []cfg{{50, 10, 10}, {100, 10, 5}, {64, 8, 8}}
 
+func popcount(m uint32) int {
+	c := 0
+	for x := m; x != 0; x &= x - 1 {
+		c++
+	}
+	return c
+}
+
 func allMasksUpTo(maxLost int) []uint32 {
 	var out []uint32
 	for m := uint32(1); m < 1<<ec.TotalShardsCount; m++ {
-		c := 0
-		for x := m; x != 0; x &= x - 1 {
-			c++
-		}
+		c := popcount(m)
 		if c <= maxLost {
 			out = append(out, m)
 		}
@@ -536,6 +588,8 @@ func nearBoundary(c cfg, n int64) bool {
 
 func main() {
 	a := hx.ParseArgs()
+	debug.SetGCPercent(50) // the rebuilder allocates 14 x 1MiB per call; a small heap re-uses resident pages
+	flag.Set("alsologtostderr", "false") // glog: the encoder logs every call; keep it in the (scratch) log file
 	tr := hx.NewTrace(a.Out)
 	defer tr.Close()
 	emit := func(ls []line) {
@@ -545,6 +599,11 @@ func main() {
 	}
 	tr.Op("config", []string{hx.I(ec.DataShardsCount), hx.I(ec.ParityShardsCount)}, []string{hx.Hex(parityMatrix())})
 
+	if pf := os.Getenv("C06_PROF"); pf != "" {
+		f, _ := os.Create(pf)
+		pprof.StartCPUProfile(f)
+		defer pprof.StopCPUProfile()
+	}
 	if a.Ops != "" {
 		replay(hx.ReadOps(a.Ops), emit)
 		return
@@ -564,33 +623,31 @@ func main() {
 	all4 := allMasksUpTo(4)
 	for ci, c := range cfgs {
 		maxN := 25 * c.L
-		// sizes carrying every <=4-subset of lost shards
-		nMaskSizes := 1
-		if a.Thorough() {
-			nMaskSizes = 10
+		// sizes carrying subsets of lost shards: thorough = every subset of <=4 for one size of one
+		// configuration per seed (three seeds cover the three configurations) and every subset of <=2
+		// at two more sizes; quick = every single shard and a seed-dependent 1/32 of the others
+		mine := int(a.Seed%3) == ci
+		maskAt := map[int64]int{} // size -> max subset size enumerated fully
+		if mine {
+			maskAt[10*c.L+1+int64(r.Intn(int(10*c.L)))] = 4
 		}
-		maskAt := map[int64]bool{}
-		for i := 0; i < nMaskSizes; i++ {
-			switch i {
-			case 0:
-				maskAt[10*c.L+int64(r.Intn(int(10*c.L)))] = true
-			case 1:
-				maskAt[10*c.L] = true
-			default:
-				maskAt[int64(r.Intn(int(maxN)+1))] = true
-			}
+		if a.Thorough() {
+			maskAt[10*c.L] = 2
+			maskAt[int64(r.Intn(int(maxN)+1))] = 2
 		}
 		fullAt := map[int64]bool{}
-		nFull := 2
+		nFull := 0
 		if a.Thorough() {
-			nFull = 8
+			nFull = 6
+		} else if mine {
+			nFull = 2
 		}
 		for i := 0; i < nFull; i++ {
 			switch i {
 			case 0:
-				fullAt[10*c.L+1+int64(r.Intn(int(10*c.L-20*c.S)))] = true // inside the guard region
+				fullAt[10*c.L+1+int64(r.Intn(int(10*c.L-20*c.S)))] = true // large rows, row count determined
 			case 1:
-				fullAt[20*c.L-int64(r.Intn(int(20*c.S)))] = true // inside the excluded region
+				fullAt[20*c.L-int64(r.Intn(int(20*c.S)))] = true // inside the ambiguous region
 			case 2:
 				fullAt[10*c.L] = true
 			case 3:
@@ -599,22 +656,37 @@ func main() {
 				fullAt[int64(r.Intn(int(maxN)+1))] = true
 			}
 		}
-		stride := int64(1)
-		if !a.Thorough() && ci > 0 {
-			stride = 3
+		stride := int64(5)
+		if a.Thorough() {
+			stride = 1
 		}
 		for n := int64(0); n <= maxN; n++ {
-			if !(n%stride == int64(a.Seed)%stride || nearBoundary(c, n) || maskAt[n] || fullAt[n]) {
+			_, hasMask := maskAt[n]
+			if !(n%stride == int64(a.Seed)%stride || nearBoundary(c, n) || hasMask || fullAt[n]) {
 				continue
 			}
 			j := &job{seed: r.U64(), c: c, n: n, nReads: 4, full: fullAt[n]}
 			if a.Thorough() {
-				j.nReads = 12
+				j.nReads = 10
 			}
-			if maskAt[n] {
-				j.masks = append(j.masks, all4...)
-				j.masks = append(j.masks, 0x1f, 0x3e00, 0x3fff, 0x0555) // 5, 5, 14 and 7 lost: too few shards
-			} else if r.Chance(1, 4) {
+			if hasMask {
+				var ms []uint32
+				for _, m := range all4 {
+					pc := popcount(m)
+					if pc <= maskAt[n] && (a.Thorough() || pc <= 1 || (uint64(m)*2654435761+a.Seed)%32 == 0) {
+						ms = append(ms, m)
+					}
+				}
+				ms = append(ms, 0x1f, 0x3e00, 0x3fff, 0x0555) // 5, 5, 14 and 7 lost: too few shards
+				// the same case repeated with a slice of the subsets each (cases run in parallel)
+				for lo := 0; lo < len(ms); lo += 16 {
+					hi := lo + 16
+					if hi > len(ms) {
+						hi = len(ms)
+					}
+					jobs = append(jobs, &job{seed: j.seed, c: c, n: n, nReads: 1, masks: ms[lo:hi]})
+				}
+			} else if r.Chance(1, 40) {
 				// a random subset of <=4 lost shards
 				var m uint32
 				for k := 1 + r.Intn(4); k > 0; k-- {
@@ -627,7 +699,7 @@ func main() {
 	}
 	// run the cases in parallel (each has its own directory), emit in order
 	var wg sync.WaitGroup
-	sem := make(chan struct{}, 12)
+	sem := make(chan struct{}, 14)
 	for _, j := range jobs {
 		wg.Add(1)
 		sem <- struct{}{}
@@ -644,9 +716,9 @@ func main() {
 
 	// decoder at the production constants (small-row regime)
 	S := int64(ec.ErasureCodingSmallBlockSize)
-	decSizes := []int64{0, 1, S - 1, S, S + 1, 10*S - 1, 10 * S, 10*S + 1, 12*S + 5, 20 * S, 21*S + 3}
+	decSizes := []int64{0, 1, S + 1, 10 * S, 10*S + 1, 21*S + 3}
 	if a.Thorough() {
-		decSizes = append(decSizes, 7, 5*S, 9*S+S/2, 11*S-1, 19*S+7, 20*S+1, 25*S+3, 30*S)
+		decSizes = append(decSizes, 7, S - 1, S, 5*S, 9*S+S/2, 10*S-1, 11*S-1, 12*S+5, 19*S+7, 20*S, 20*S+1, 25*S+3, 30*S)
 	}
 	decSizes = append(decSizes, int64(r.Intn(int(22*S))))
 	var djobs [][]line
